@@ -90,3 +90,78 @@ func VerifC14Set() {
 		verifrt.Assert(vCreated == 0, "refused-set-logs-nothing")
 	}
 }
+
+// c14HasGroup: byte-wise oracle: g is exactly one of the ';'-separated groups
+func c14HasGroup(groups, g string) bool {
+	gi := 0
+	for gi <= len(groups) {
+		gj := gi
+		for gj < len(groups) && groups[gj] != ';' {
+			gj++
+		}
+		if gj-gi == len(g) && groups[gi:gj] == g {
+			return true
+		}
+		gi = gj + 1
+	}
+	return false
+}
+
+// VerifC14List: listing all targets (target "*"). Under authorization (OIDC_SERVER_URL set) an identified caller is
+// shown exactly the targets named by its own groups, or every target if it holds the ROC-admin group; without
+// authorization every target is listed. The topology holds t1 and t2.
+func VerifC14List() {
+	secured := verifrt.Fork("secured", 2) == 1 // (environment variables are not path-sensitive in the engine: one case each)
+	if secured {
+		verifrt.SetEnv("OIDC_SERVER_URL", "http://oidc")
+	} else {
+		verifrt.SetEnv("OIDC_SERVER_URL", "")
+	}
+	verifrt.SetEnv("AetherROCAdmin", "ra") // the name of the ROC-admin group (overridable by this variable)
+	groups := verifrt.NondetString("groups", verifrt.Param("groupslen"), "t12;ra")
+	md := metadata.MD{"groups": []string{groups}}
+	named := verifrt.NondetBool("name-claim")
+	if named {
+		md["name"] = []string{"alice"}
+	}
+	ctx := metadata.NewIncomingContext(context.Background(), md)
+	srv := vServer()
+	viaPath := verifrt.NondetBool("star-on-the-path")
+	req := &gnmi.GetRequest{Encoding: gnmi.Encoding_PROTO, Path: []*gnmi.Path{{}}}
+	if viaPath {
+		req.Path[0].Target = "*"
+	} else {
+		req.Prefix = &gnmi.Path{Target: "*"}
+	}
+	resp, err := srv.Get(ctx, req)
+	verifrt.Cover("answered")
+	verifrt.Assert(err == nil && resp != nil && len(resp.Notification) == 1 && len(resp.Notification[0].Update) == 1, "listing-answered")
+	if err != nil || resp == nil || len(resp.Notification) != 1 || len(resp.Notification[0].Update) != 1 {
+		return
+	}
+	ll, ok := resp.Notification[0].Update[0].Val.Value.(*gnmi.TypedValue_LeaflistVal)
+	verifrt.Assert(ok && ll.LeaflistVal != nil, "listing-is-a-leaf-list")
+	if !ok || ll.LeaflistVal == nil {
+		return
+	}
+	seen1, seen2, other := 0, 0, 0
+	for _, e := range ll.LeaflistVal.Element {
+		switch e.GetStringVal() {
+		case "t1":
+			seen1++
+		case "t2":
+			seen2++
+		default:
+			other++
+		}
+	}
+	// the groups count only for an identified caller (the handler reads them when the name claim is present)
+	admin := named && c14HasGroup(groups, "ra")
+	want1 := !secured || admin || (named && c14HasGroup(groups, "t1"))
+	want2 := !secured || admin || (named && c14HasGroup(groups, "t2"))
+	if secured && !admin {
+		verifrt.Cover("restricted")
+	}
+	verifrt.Assert(other == 0 && seen1 <= 1 && seen2 <= 1, "only-known-targets-each-once")
+	verifrt.Assert((seen1 == 1) == want1 && (seen2 == 1) == want2, "caller-sees-exactly-the-targets-of-its-groups-unless-roc-admin")
+}
